@@ -4,8 +4,10 @@ patch="$1"; shift
 cd /verif
 git -C /repo apply "$patch" || { echo "patch does not apply"; exit 2; }
 for id in "$@"; do
+  cp evidence/$id.json out/evidence_$id.keep 2>/dev/null
   ./check "$id" quick > out/try_$id.log 2>&1; rc=$?
   echo "$id exit=$rc  violations=$(grep -c '^VIOLATION' out/try_$id.log) $(grep '^VIOLATION' out/try_$id.log | sed 's/.*replay=.*\/\(Verif[A-Za-z0-9_]*\)\..*/\1/' | sort -u | tr '\n' ' ')"
+  cp out/evidence_$id.keep evidence/$id.json 2>/dev/null  # the evidence file must describe the unchanged tree
   grep "^BROKEN\|^INCONCLUSIVE\|^ENGINE-MISMATCH\|^VACUOUS" out/try_$id.log | cut -c1-200 | head -5
 done
 git -C /repo checkout -- .
